@@ -7,7 +7,7 @@
    only required to name a retained key. *)
 From Coq Require Import List NArith ZArith Bool.
 From GQL Require Import Base.Bytes Cache.LRU Cache.CacheSpec Proofs.CacheProofs
-     Run.C06run Proofs.CacheRunProofs Cache.Normalize Proofs.CacheNormalizeProofs.
+     Run.C06run Proofs.CacheRunProofs Cache.Normalize Proofs.CacheNormalizeProofs Proofs.CacheAdmProofs.
 Import ListNotations.
 Open Scope N_scope.
 
@@ -123,6 +123,28 @@ Theorem C06_policy_independent :
     map (@o_res R A) (snd (run hash fresh ok synth no_synth v2 c h)).
 Proof. intros. apply results_policy_independent; assumption. Qed.
 Print Assumptions C06_policy_independent.
+
+(* What the runner tolerates as eviction-order drift is exactly a step of the
+   model under some policy: every Get of the model, from a state without
+   duplicate keys (every reachable state, C06_keys_unique), under every policy
+   naming a retained key, satisfies the admissibility relation the runner
+   applies to the implementation's observations (retained entries projected to
+   (key id, schema id) by any injective numbering of keys). *)
+Theorem C06_model_admissible :
+  forall (R A : Type) (kid : bytes -> N) hash (fresh : cfg -> req -> R) ok (synth : req -> A) no_synth victim,
+    (forall a b, kid a = kid b -> a = b) -> victim_ok victim ->
+    forall c (s : state R) r, NoDup (map e_key (entries s)) ->
+      let res := get hash fresh ok synth no_synth victim c s r in
+      match key hash c r with
+      | Some k => adm_get (eff_max c) (map (proj kid) (entries s)) (kid k) (rq_schema r) (hitc (snd res))
+                          (map (proj kid) (entries (fst res))) = true
+      | None => adm_bypass (map (proj kid) (entries s)) (hitc (snd res)) (map (proj kid) (entries (fst res))) = true
+      end.
+Proof.
+  intros R A kid hash fresh ok synth no_synth victim KI HV c s r Hd.
+  exact (get_admissible kid KI victim HV hash fresh ok synth no_synth c s r Hd).
+Qed.
+Print Assumptions C06_model_admissible.
 
 (* Literal normalisation on a reduced query syntax (Cache/Normalize.v): for
    every schema (field_def, arg_ty, tc_obj), every coercion (lit_coerce =
